@@ -466,6 +466,15 @@ fn elem_run(name: &str, eops: &[Value], fin: &[Value], d: usize, indent: Option<
             match kind {
                 "empty" => { ew.write_empty_async().await.unwrap(); }
                 "text" => { ew.write_text_content_async(BytesText::new(&payload)).await.unwrap(); }
+                "inner" => {
+                    let p2 = payload.clone();
+                    ew.write_inner_content_async::<_, _, quick_xml::Error>(|w| async move {
+                        w.write_event_async(Event::Text(BytesText::new(&p2))).await?;
+                        Ok(w)
+                    })
+                    .await
+                    .unwrap();
+                }
                 "cdata" => { ew.write_cdata_content_async(BytesCData::new(payload.as_str())).await.unwrap(); }
                 _ => { ew.write_pi_content_async(BytesPI::new(payload.as_str())).await.unwrap(); }
             }
@@ -481,6 +490,9 @@ fn elem_run(name: &str, eops: &[Value], fin: &[Value], d: usize, indent: Option<
         match kind {
             "empty" => { ew.write_empty().unwrap(); }
             "text" => { ew.write_text_content(BytesText::new(&payload)).unwrap(); }
+            "inner" => {
+                ew.write_inner_content(|w| w.write_event(Event::Text(BytesText::new(&payload)))).unwrap();
+            }
             "cdata" => { ew.write_cdata_content(BytesCData::new(payload.as_str())).unwrap(); }
             _ => { ew.write_pi_content(BytesPI::new(payload.as_str())).unwrap(); }
         }
